@@ -4,7 +4,8 @@
    A line is a sequence of cells (1-character strings, what a viewer sees of it - style tags removed).
 
    P-layer (from the statement): `content` - per section, in creation order, the lines it currently holds:
-            write_line appends the lines of the message, clear() empties, clear(n) drops the last n lines,
+            write_line appends the lines of the message, clear() empties, clear(n) drops the last n lines (all, if
+            fewer are held),
             overwrite replaces everything by the message.  The property, ANSI mode: after every operation the
             screen shows the lines that were on the output before the sections (`pre`), then the lines of all
             sections in creation order, each folded at the terminal width - nothing else (ScreenMatches).
@@ -46,7 +47,7 @@ Concat(ss) == FoldLeft(LAMBDA acc, x : acc \o x, <<>>, ss)
 
 PWrite(cs, i, ls) == [cs EXCEPT ![i] = @ \o ls]
 PClear(cs, i) == [cs EXCEPT ![i] = <<>>]
-PClearN(cs, i, n) == [cs EXCEPT ![i] = SubSeq(@, 1, Len(@) - n)]          \* domain: 1 <= n <= Len(cs[i])
+PClearN(cs, i, n) == [cs EXCEPT ![i] = IF n >= Len(@) THEN <<>> ELSE SubSeq(@, 1, Len(@) - n)]   \* n >= 1; more than held: all
 POverwrite(cs, i, ls) == [cs EXCEPT ![i] = ls]
 
 \* Output._may_write: quiet suppresses everything; a flag asks for at least that verbosity (0 = always)
@@ -121,7 +122,7 @@ InitWith(w, a, p) ==
 \* for "write" n is the message-level flag (0, 1, 2, 4), for "clearn" the number of lines
 InDomain(op, i, n) ==
   /\ op \in {"write", "overwrite", "clear", "clearn"} /\ i \in 1..Len(secs)
-  /\ op = "clearn" => (n >= 1 /\ (ansi => n <= Len(content[i])))
+  /\ op = "clearn" => n >= 1                                 \* also beyond the lines held: a full clear
   /\ op = "write" => n \in {0, 1, 2, 4}
   /\ (op # "write" /\ gate[i].quiet) => QuietClears
 
